@@ -11,6 +11,8 @@
 #include <AIToolbox/POMDP/Algorithms/PERSEUS.hpp>
 #include <AIToolbox/POMDP/Algorithms/QMDP.hpp>
 #include <AIToolbox/POMDP/Policies/Policy.hpp>
+#include <AIToolbox/POMDP/Algorithms/Utils/Projecter.hpp>
+#include <AIToolbox/POMDP/Utils.hpp>
 #include <AIToolbox/Seeder.hpp>
 #include "vio.hpp"
 using namespace AIToolbox;
@@ -83,6 +85,32 @@ int main(int argc, char ** argv) {
                 auto [a, id] = pol.sampleAction(b, H);
                 o << "T" << a << id;
                 dumpTree(o, pol, id, H - 1, t.O);
+            }
+        } else if (kind == "csbb") {   // csbb <pomdp> <nw> <w vectors…> <nb> <beliefs…>
+            Tables t = readPomdp(c);
+            POMDP::Model<MDP::Model> model(t.O, t.Ob, t.S, t.A, t.T, t.R, t.g);
+            size_t nw = c.nextSize();
+            POMDP::VList w;
+            for (size_t i = 0; i < nw; ++i) {
+                MDP::Values v(t.S); for (size_t s = 0; s < t.S; ++s) v[s] = c.nextDouble();
+                w.emplace_back(std::move(v), 0, POMDP::VObs(t.O, 0));
+            }
+            POMDP::Projecter projecter(model);
+            auto projs = projecter(w);
+            size_t nbel = c.nextSize();
+            o << nbel;
+            for (size_t k = 0; k < nbel; ++k) {
+                POMDP::Belief b(t.S); for (size_t s = 0; s < t.S; ++s) b[s] = c.nextDouble();
+                for (size_t a = 0; a < t.A; ++a) {
+                    double val;
+                    auto e = POMDP::crossSumBestAtBelief(b, projs[a], a, &val);
+                    o << e.action; o.list(e.observations);
+                    o << (size_t) e.values.size(); for (Eigen::Index i = 0; i < e.values.size(); ++i) o << e.values[i];
+                    o << val;
+                }
+                double val;
+                auto e = POMDP::crossSumBestAtBelief(b, projs, &val);
+                o << e.action; o.list(e.observations); o << val;
             }
         } else throw std::logic_error("unknown case kind " + kind);
     });
